@@ -19,6 +19,7 @@ def run(ctx, R, tier):
     when(F, R)
     cancel(F, R)
     tween(F, R)
+    clock_rules(F, R)
     torn(F, R)
 
 
@@ -172,6 +173,53 @@ def tween(F, R):
         R.check(ok, 'B.C05.tween', path, 'a clock-timed tween is started on %s, not on when_to_start(..) == Now' % (d or 'no comparison'),
                 detail={'started': d[:200]}, where=b.file)
     R.floor('B.C05.tween', n, 2)
+
+
+def clock_rules(F, R):
+    """Pausing freezes the clock, stopping resets it, the handle copy is refreshed once per callback."""
+    b = F.body('clock::Clock::update')
+    if R.check(b is not None, 'B.C05.pause', 'anchor', 'Clock::update not found'):
+        sw = [x for x in range(b.n) if b.blocks[x]['term']['k'] == 'switch' and describe(b, b.blocks[x]['term']['op']) == '(*self).ticking']
+        ok = len(sw) == 1
+        why = 'Clock::update does not branch on `ticking` exactly once'
+        if ok:
+            t = b.blocks[sw[0]]['term']
+            false_t = dict(t['targets']).get('0')
+            reach = b.reachable([false_t])
+            stores = [pretty_place(b, s['lhs']) for x in reach for s in b.blocks[x]['stmts'] if s['k'] in ('assign', 'setdiscr') and s['lhs']['p']
+                      and pretty_place(b, s['lhs']).startswith('(*self)')]
+            loops = [x for x in reach if b.in_loop(x)]
+            # every store to the clock state is behind the ticking test
+            st_all = [(x, pretty_place(b, s['lhs'])) for x, si, s in b.stmts() if s['k'] in ('assign', 'setdiscr') and s['lhs']['p']
+                      and pretty_place(b, s['lhs']).startswith('(*self).state')]
+            ok = not stores and not loops and all(b.dominates(t['otherwise'], x) for x, _ in st_all) and bool(st_all)
+            why = 'a paused clock still changes its state (%s)' % stores[:2]
+        R.check(ok, 'B.C05.pause', 'Clock::update', why, detail='!ticking => return None before any state change', where=b.file)
+    rb = F.body('clock::Clock::reset')
+    if R.check(rb is not None, 'B.C05.reset', 'anchor', 'Clock::reset not found'):
+        st = [describe_rv_(rb, s) for x, si, s in rb.stmts() if s['k'] in ('assign',) and s['lhs']['p'] and pretty_place(rb, s['lhs']) == '(*self).state']
+        R.check(st == ['clock::State::NotStarted'], 'B.C05.reset', 'Clock::reset', 'reset leaves state %s' % st, detail='state = NotStarted (time reads as zero)')
+    ob = F.body('clock::Clock::on_start_processing')
+    if R.check(ob is not None, 'B.C05.reset', 'anchor:osp', 'Clock::on_start_processing not found'):
+        rs = blocks_of(calls_to(ob, 'clock::Clock::reset', suffix=False))
+        us = blocks_of(calls_to(ob, 'clock::Clock::update_shared', suffix=False))
+        ok = len(rs) == 1 and len(us) == 1 and all(ob.dominates(us[0], r) for r in ob.return_blocks()) and order_ok(ob, rs, us)
+        R.check(ok, 'B.C05.reset', 'publish', 'the handle copy of the time is not refreshed after commands on every callback', detail='reset ≺ update_shared on every path')
+    hb = F.body('clock::handle::ClockHandle::stop')
+    if R.check(hb is not None, 'B.C05.reset', 'anchor:stop', 'ClockHandle::stop not found'):
+        from .c07 import origin_pl, last_field
+        w = []
+        for x, t in hb.calls():
+            if (callee_path(t) or '') == 'command::CommandWriter::<T>::write':
+                lf = last_field(origin_pl(hb, t['args'][0]) or {})
+                w.append((lf[0] if lf else '?', describe(hb, t['args'][1])))
+        R.check(('set_ticking', 'False') in w and any(n == 'reset' for n, _ in w), 'B.C05.reset', 'ClockHandle::stop',
+                'stop() writes %s (must pause and reset)' % w, detail={'writes': w})
+
+
+def describe_rv_(b, s):
+    from ..paths import describe_rv
+    return describe_rv(b, s['rv'])
 
 
 # ---------------------------------------------------------------- torn reads
